@@ -114,3 +114,49 @@ def calibrate_ftz():
 def nextafter32(x, up=True):
   x = np.float32(x)
   return np.nextafter(x, np.float32(np.inf if up else -np.inf), dtype=np.float32)
+
+
+class _TensorRef:
+  """hashable stand-in for Keras-2 `tensor.ref()`"""
+
+  def __init__(self, t):
+    self.t = t
+
+  def __hash__(self):
+    return id(self.t)
+
+  def __eq__(self, o):
+    return isinstance(o, _TensorRef) and o.t is self.t
+
+  def deref(self):
+    return self.t
+
+
+class _ShapeList:
+  def __init__(self, s):
+    self.s = s
+
+  def as_list(self):
+    return list(self.s)
+
+
+def install_keras2_graph_shims():
+  """qtools' graph builder (qgraph.GenerateGraphFromModel) reads four Keras-2 attributes that Keras 3
+  dropped: KerasTensor.ref(), KerasTensor.get_shape(), Layer.output_shape / input_shape and
+  Layer.get_output_at / get_input_at.  They are pure accessors; with them QTools(model), analyze_accumulator
+  (through unfold_model) and find_bn_fusing_layer_pair run unmodified on functional models."""
+  import keras
+  from keras.src.backend.common.keras_tensor import KerasTensor
+  if not hasattr(KerasTensor, "ref"):
+    KerasTensor.ref = lambda self: _TensorRef(self)
+  if not hasattr(KerasTensor, "get_shape"):
+    KerasTensor.get_shape = lambda self: _ShapeList(self.shape)
+  L = keras.layers.Layer
+  if not hasattr(L, "output_shape"):
+    L.output_shape = property(lambda self: [tuple(self.output.shape)] if type(self).__name__ == "InputLayer" else tuple(self.output.shape))
+  if not hasattr(L, "input_shape"):
+    L.input_shape = property(lambda self: tuple(self.input.shape))
+  if not hasattr(L, "get_output_at"):
+    L.get_output_at = lambda self, i: self.output
+  if not hasattr(L, "get_input_at"):
+    L.get_input_at = lambda self, i: self.input
